@@ -1231,13 +1231,28 @@ class World:
                 with m['obj'] as mgr:
                     if mgr is not m['obj']:
                         raise HarnessError('__enter__ returned other object')
-        elif how == 'with-exc':
+        elif how.startswith('with-exc'):
+            # the with block is left through an exception: whatever its type
+            # (also a pywbem exception such as a CIMError of a rejected
+            # request), the owned instances are cleaned up
+            kind = how[len('with-exc'):].lstrip('-') or 'boom'
+            exc = {'boom': _Boom(),
+                   'cim': pywbem.CIMError(CIM_ERR_ALREADY_EXISTS, 'in block'),
+                   'cimfailed': pywbem.CIMError(CIM_ERR_FAILED, 'in block'),
+                   'conn': pywbem.ConnectionError('in block'),
+                   'timeout': pywbem.TimeoutError('in block'),
+                   'parse': pywbem.ParseError('in block'),
+                   'value': ValueError('in block'),
+                   'key': KeyError('in block')}[kind]
+
             def fn():
                 try:
                     with m['obj']:
-                        raise _Boom()
-                except _Boom:
-                    return
+                        raise exc
+                except type(exc) as got:
+                    if got is exc:
+                        return
+                    raise
                 raise HarnessError('exception of the with body swallowed')
         else:
             fn = m['obj'].remove_all_servers
@@ -1621,7 +1636,10 @@ class Machine:
             return {'op': 'rm_server', 'm': mi, 's': si}
         if x < 8:
             return {'op': 'rm_all', 'm': mi, 's': si}
-        return {'op': 'ctx_exit', 'm': mi, 's': si, 'exc': draw(_I10) < 3}
+        return {'op': 'ctx_exit', 'm': mi, 's': si, 'exc': draw(
+            st.sampled_from([False] * 6 + ['boom', 'cim', 'cim', 'cimfailed',
+                                           'conn', 'timeout', 'parse',
+                                           'value', 'key']))}
 
     def _g_unblock(self, si, b):
         """
@@ -1840,7 +1858,9 @@ class Machine:
         elif op == 'getter':
             step.update(which=draw(st.sampled_from(World.GETTERS)))
         elif op == 'ctx_exit':
-            step.update(exc=draw(_I10) < 3)
+            step.update(exc=draw(st.sampled_from(
+                [False] * 5 + ['boom', 'cim', 'cim', 'cimfailed', 'conn',
+                               'timeout', 'parse', 'value', 'key'])))
         return step
 
     def apply(self, step):
@@ -1877,7 +1897,12 @@ class Machine:
         elif op == 'rm_all':
             cls = w.rm_all(mi, 'call')
         elif op == 'ctx_exit':
-            cls = w.rm_all(mi, 'with-exc' if step.get('exc') else 'with')
+            e = step.get('exc')
+            cls = w.rm_all(mi, 'with' if not e else
+                           'with-exc' if e is True else 'with-exc-' + e)
+            if e:
+                cls = list(cls) + ['ctx_exit:through-exception:%s' %
+                                   ('boom' if e is True else e)]
         elif op == 'restart':
             cls = w.restart(mi)
         elif op == 'foreign':
